@@ -466,3 +466,185 @@ fn path_class(path: &str) -> String {
     }
     p
 }
+
+/// C05 — writes and transactions go to the primary; explicit role choices are honoured.
+///
+/// Per client, in program order, a reference of the routing mode (pool defaults, SET SERVER
+/// ROLE, SET PRIMARY READS) and the class each statement has by construction. Every statement
+/// the pooler's own SQL parser accepts and that was executed must have been executed on a
+/// server whose role label is allowed: anything but a plain read => primary (in automatic
+/// mode); plain read => replica unless primary reads are on; explicit role => that role only.
+pub fn c05_roles(cx: &mut Ctx) {
+    use sqlparser::dialect::PostgreSqlDialect;
+    use sqlparser::parser::Parser;
+    let h = cx.h;
+    let plan = cx.spec.params.get("c05_plan").cloned().unwrap_or_default();
+    let default_role = cx.param_str("default_role");
+    let pool_primary_reads = cx.param_bool("primary_reads_enabled");
+    let pool_parser = cx.param_bool("query_parser_enabled");
+    let role_of_host = |host: &str| -> Option<String> { cx.spec.hosts.iter().find(|x| x.addr == host).map(|x| x.role.clone()) };
+    #[derive(Clone, Copy, PartialEq, Debug)]
+    enum Mode {
+        Default,
+        Auto,
+        Primary,
+        Replica,
+        Any,
+    }
+    for c in h.clients.values() {
+        if c.database == "pgcat" || c.auth_result != "ok" {
+            continue;
+        }
+        let mut mode = Mode::Default;
+        let mut primary_reads: Option<bool> = None;
+        // role of the server the open explicit transaction began on (None = no transaction open)
+        let mut txn_role: Option<String> = None;
+        for s in &c.steps {
+            if s.op != "send" {
+                continue;
+            }
+            if s.tags.is_empty() {
+                if let Some(q) = query_text_of(s) {
+                    let ok = s.msgs.iter().map(|m| m.ty).collect::<Vec<u8>>() == vec![b'C', b'Z'];
+                    match refmodel::recognise(&q) {
+                        Recognised::Command(Cmd::SetServerRole(r)) if ok => {
+                            mode = match r.as_str() {
+                                "primary" => Mode::Primary,
+                                "replica" => Mode::Replica,
+                                "any" => Mode::Any,
+                                "auto" => Mode::Auto,
+                                _ => Mode::Default,
+                            };
+                            cx.probe(&format!("c05_set_server_role_{}", r));
+                        }
+                        Recognised::Command(Cmd::SetPrimaryReads(v)) if ok => {
+                            primary_reads = match v.as_str() {
+                                "on" => Some(true),
+                                "off" => Some(false),
+                                _ => None,
+                            };
+                        }
+                        _ => {}
+                    }
+                }
+                if !matches!(s.outcome, StepOutcome::Ready(_)) {
+                    break;
+                }
+                continue;
+            }
+            let tag = s.tags[0];
+            let entry = match plan.get(tag.to_string()) {
+                Some(e) => e.clone(),
+                None => continue,
+            };
+            let class = entry.get("class").and_then(|v| v.as_str()).unwrap_or("").to_string();
+            let in_txn = entry.get("in_txn").and_then(|v| v.as_bool()).unwrap_or(false);
+            // the statement text as sent
+            let sql: Option<String> = {
+                let (msgs, _) = proto::split_all(&s.sent);
+                msgs.iter().find(|m| m.ty == b'Q' || m.ty == b'P').and_then(|m| {
+                    let mut r = proto::Reader::new(&m.body);
+                    if m.ty == b'P' {
+                        let _ = r.cstr();
+                    }
+                    r.cstr()
+                })
+            };
+            let sql = match sql {
+                Some(x) => x,
+                None => continue,
+            };
+            // every statement text of the message must be accepted for the parser to have a verdict
+            let all_texts: Vec<String> = {
+                let (msgs, _) = proto::split_all(&s.sent);
+                msgs.iter()
+                    .filter(|m| m.ty == b'Q' || m.ty == b'P')
+                    .filter_map(|m| {
+                        let mut r = proto::Reader::new(&m.body);
+                        if m.ty == b'P' {
+                            let _ = r.cstr();
+                        }
+                        r.cstr()
+                    })
+                    .collect()
+            };
+            let accepted = all_texts.iter().all(|t| Parser::parse_sql(&PostgreSqlDialect {}, t).is_ok());
+            // effective behaviour
+            // the parser only decides roles when read/write splitting is configured
+            let automatic = cx.param_bool("rw_split")
+                && match mode {
+                    Mode::Auto => true,
+                    Mode::Default => pool_parser,
+                    _ => false,
+                };
+            let reads_on_primary = primary_reads.unwrap_or(pool_primary_reads);
+            let allowed: Vec<&str> = if let (true, Some(r)) = (in_txn, &txn_role) {
+                // inside a transaction everything stays where the transaction began (C01 checks the
+                // connection; here only the role)
+                vec![r.as_str()]
+            } else {
+                match mode {
+                    Mode::Primary => vec!["primary"],
+                    Mode::Replica => vec!["replica"],
+                    Mode::Any => vec!["primary", "replica"],
+                    Mode::Auto | Mode::Default => {
+                        if automatic {
+                            if !accepted {
+                                // the parser gives no verdict: the role of the previous statement stays
+                                vec!["primary", "replica"]
+                            } else if class == "plain_read" || class == "multi_reads" {
+                                if reads_on_primary { vec!["primary", "replica"] } else { vec!["replica"] }
+                            } else {
+                                vec!["primary"]
+                            }
+                        } else if mode == Mode::Auto {
+                            // 'auto' clears the role; without read/write splitting nothing sets one
+                            vec!["primary", "replica"]
+                        } else {
+                            match default_role.as_str() {
+                                "primary" => vec!["primary"],
+                                "replica" => vec!["replica"],
+                                _ => vec!["primary", "replica"],
+                            }
+                        }
+                    }
+                }
+            };
+            let allowed: Vec<String> = allowed.iter().map(|x| x.to_string()).collect();
+            if !accepted {
+                cx.probe("c05_statement_not_accepted_by_parser");
+            }
+            let execs: Vec<usize> = cx.ix.exec_by_tag.get(&tag).cloned().unwrap_or_default();
+            if execs.is_empty() {
+                cx.probe("c05_statement_not_executed");
+            }
+            for ei in execs {
+                let e = &h.stmts[ei];
+                let host = &h.backend_conns[e.conn].host;
+                let got = match role_of_host(host) {
+                    Some(g) if g != "mirror" => g,
+                    _ => continue,
+                };
+                cx.probe("c05_statement_checked");
+                cx.probe(&format!("c05_class_{}", class));
+                if automatic && accepted && allowed.len() == 1 && !in_txn {
+                    cx.probe(&format!("c05_decided_{}_{}", class, allowed[0]));
+                }
+                if class == "txn_start" && matches!(s.outcome, StepOutcome::Ready(b'T')) {
+                    txn_role = Some(got.clone());
+                }
+                if !allowed.contains(&got) {
+                    let how = if in_txn && txn_role.is_some() { "inside_transaction" } else if entry.get("extended").is_some() { "extended" } else { "simple" };
+                    cx.v("C05", "wrong_role", &format!("C05/wrong_role/{}/mode={:?}/{}", class, mode, how), e.rec.seq, format!("client {} step {}: {} statement executed on {} ({}), allowed: {:?} (mode {:?}, parser {}, primary reads {}, default_role {}): {}", c.id, s.idx, class, host, got, allowed, mode, automatic, reads_on_primary, default_role, sql.chars().take(140).collect::<String>()));
+                }
+            }
+            if let StepOutcome::Ready(z) = s.outcome {
+                if z == b'I' {
+                    txn_role = None;
+                }
+            } else {
+                break;
+            }
+        }
+    }
+}
